@@ -9,7 +9,18 @@
 //	kek   AES-GCM key-encryption key, ad associated data
 //	tape  bytes served to crypto/rand (the IVs of the two encrypted writes)
 //
-// Observation ("U" when a key type is not transcribed in the model):
+// Writer-history case line (one *keyset.BinaryWriter and one *keyset.JSONWriter
+// used for several writes over a buffer that is Reset() in between):
+//
+//	W|<kek>|<ad>|<tape>|<ops>|<bin1>|<bin2>|<bin3>|<label>
+//
+//	ops   2-4 of C<i> (insecurecleartextkeyset.Write of handle i), E<i> (Handle.Write),
+//	      A<i> (Handle.WriteWithAssociatedData), N<i> (Handle.WriteWithNoSecrets), e.g. C1,E2,A2,N3
+//	Observation: W|c:<ok|err>,..|o:<ok:hex|err>;...  (bytes the shared binary writer emitted per write)
+//
+// Observation ("U" when the keyset holds one of the five key types whose
+// parser the shared model does not transcribe: PRF-based deriver, the three
+// ML-DSA private kinds and the composite ML-DSA public key):
 //
 //	c:<ok|err>            insecurecleartextkeyset.Read
 //	n: rn: rj:            keyset.NewHandleWithNoSecrets, ReadWithNoSecrets (binary, JSON)
@@ -40,19 +51,44 @@ import (
 	cmacpb "github.com/tink-crypto/tink-go/v2/proto/aes_cmac_go_proto"
 	cmacprfpb "github.com/tink-crypto/tink-go/v2/proto/aes_cmac_prf_go_proto"
 	ctrhmacpb "github.com/tink-crypto/tink-go/v2/proto/aes_ctr_hmac_aead_go_proto"
+	ctrhmacstreampb "github.com/tink-crypto/tink-go/v2/proto/aes_ctr_hmac_streaming_go_proto"
 	gcmpb "github.com/tink-crypto/tink-go/v2/proto/aes_gcm_go_proto"
+	gcmhkdfpb "github.com/tink-crypto/tink-go/v2/proto/aes_gcm_hkdf_streaming_go_proto"
 	gcmsivpb "github.com/tink-crypto/tink-go/v2/proto/aes_gcm_siv_go_proto"
 	sivpb "github.com/tink-crypto/tink-go/v2/proto/aes_siv_go_proto"
 	chachapb "github.com/tink-crypto/tink-go/v2/proto/chacha20_poly1305_go_proto"
 	hkdfprfpb "github.com/tink-crypto/tink-go/v2/proto/hkdf_prf_go_proto"
 	hmacpb "github.com/tink-crypto/tink-go/v2/proto/hmac_go_proto"
 	hmacprfpb "github.com/tink-crypto/tink-go/v2/proto/hmac_prf_go_proto"
+	jwthmacpb "github.com/tink-crypto/tink-go/v2/proto/jwt_hmac_go_proto"
 	tinkpb "github.com/tink-crypto/tink-go/v2/proto/tink_go_proto"
 	xaesgcmpb "github.com/tink-crypto/tink-go/v2/proto/x_aes_gcm_go_proto"
 	xchachapb "github.com/tink-crypto/tink-go/v2/proto/xchacha20_poly1305_go_proto"
 )
 
 const tp = c14.TypePrefix
+
+// unmodelled5: the registered key types whose parser model/Untrusted.v does
+// not transcribe (unmodelled_urls of coq/model/UntrustedConsts.v); every
+// other registered type (37) and every unregistered URL is in C13's scope.
+var unmodelled5 = map[string]bool{
+	tp + "PrfBasedDeriverKey": true, tp + "JwtMlDsaPrivateKey": true, tp + "MlDsaPrivateKey": true,
+	tp + "CompositeMlDsaPublicKey": true, tp + "CompositeMlDsaPrivateKey": true,
+}
+
+// inScope: a registered key type whose parser the model transcribes.
+func inScope(url string) bool {
+	return (c14.Modelled(url) || c14.Unmodelled(url)) && !unmodelled5[url]
+}
+
+func anyUnmodelled5(ks *tinkpb.Keyset) bool {
+	for _, k := range ks.GetKey() {
+		if unmodelled5[k.GetKeyData().GetTypeUrl()] {
+			return true
+		}
+	}
+	return false
+}
 
 func okErr(err error) string {
 	if err != nil {
@@ -103,7 +139,7 @@ func execute(in string) *res {
 		panic("C13 case with undecodable keyset")
 	}
 	r.ks = ks
-	r.u = c14.AnyUnmodelled(ks)
+	r.u = anyUnmodelled5(ks)
 	h, err := insecurecleartextkeyset.Read(keyset.NewBinaryReader(bytes.NewReader(bin)))
 	r.c, r.h = okErr(err), h
 	_, err = keyset.NewHandleWithNoSecrets(proto.Clone(ks).(*tinkpb.Keyset))
@@ -214,6 +250,9 @@ func execute(in string) *res {
 }
 
 func c13Run(in string) string {
+	if strings.HasPrefix(in, "W|") {
+		return runW(in).obs
+	}
 	r := execute(in)
 	if r.u {
 		return "U"
@@ -258,7 +297,12 @@ func urlish(w []byte) bool {
 
 // leaks: some 8-byte window of a key value occurs in out (raw, or inside a
 // base64 / hex rendering of it).
-func leaks(out []byte, values [][]byte) string {
+func leaks(out []byte, values [][]byte) string { return leaksExcept(out, values, nil) }
+
+// leaksExcept: as leaks, ignoring windows that also occur in allowed (what the
+// output legitimately holds, e.g. the public part a private key shares with
+// the public key being written).
+func leaksExcept(out []byte, values [][]byte, allowed []byte) string {
 	forms := [][]byte{out}
 	// every maximal base64-alphabet run, decoded
 	run := []byte{}
@@ -297,6 +341,9 @@ func leaks(out []byte, values [][]byte) string {
 			}
 			if masked >= 4 || urlish(w) {
 				continue // type URLs of nested key templates are metadata, not key material
+			}
+			if allowed != nil && bytes.Contains(allowed, w) {
+				continue
 			}
 			for _, f := range forms {
 				if bytes.Contains(f, w) {
@@ -357,6 +404,9 @@ func hexv(c byte) int {
 func c13Check(in, obs string) string {
 	if strings.HasPrefix(obs, "PANIC") {
 		return obs
+	}
+	if strings.HasPrefix(in, "W|") {
+		return checkW(in)
 	}
 	r := execute(in)
 	labelSecret, trueSecret := false, false
@@ -455,6 +505,14 @@ func c13Class(in, obs string) string {
 	f := strings.Split(in, "|")
 	label := f[len(f)-1]
 	o := "U"
+	if strings.HasPrefix(in, "W|") {
+		ops := f[4]
+		st := "ok"
+		if strings.Contains(obs, "err") {
+			st = "haserr"
+		}
+		return "W:" + ops + ":" + st
+	}
 	if obs != "U" {
 		p := strings.Split(obs, "|")
 		o = strings.Join(p[:min(5, len(p))], "")
@@ -466,23 +524,253 @@ func c13Class(in, obs string) string {
 }
 
 // ---------------------------------------------------------------------------
+// writer history: one writer object, several writes
+// ---------------------------------------------------------------------------
+
+type wres struct {
+	obs           string
+	ks            []*tinkpb.Keyset
+	ops           []string
+	sharedB       [][]byte // nil = the write returned an error
+	freshB        [][]byte
+	sharedJ       [][]byte
+	freshJ        [][]byte
+	readable      bool
+	kek, ad, tape []byte
+}
+
+// history runs the writes in order and returns what each emitted (nil = error).
+// shared: ONE writer over ONE buffer, Reset() between writes; otherwise a
+// fresh buffer and a fresh writer per write.
+func history(hs []*keyset.Handle, ops []string, a interface {
+	Encrypt(pt, ad []byte) ([]byte, error)
+	Decrypt(ct, ad []byte) ([]byte, error)
+}, ad, tape []byte, shared, js bool) [][]byte {
+	out := make([][]byte, len(ops))
+	hx.WithTape(&hx.Tape{Bulk: tape}, func() {
+		buf := &bytes.Buffer{}
+		mk := func(b *bytes.Buffer) keyset.Writer {
+			if js {
+				return keyset.NewJSONWriter(b)
+			}
+			return keyset.NewBinaryWriter(b)
+		}
+		w := mk(buf)
+		for i, o := range ops {
+			if shared {
+				buf.Reset()
+			} else {
+				buf = &bytes.Buffer{}
+				w = mk(buf)
+			}
+			h := hs[int(o[1]-'1')]
+			var err error
+			switch o[0] {
+			case 'C':
+				err = insecurecleartextkeyset.Write(h, w)
+			case 'E':
+				err = h.Write(w, a)
+			case 'A':
+				err = h.WriteWithAssociatedData(w, a, ad)
+			case 'N':
+				err = h.WriteWithNoSecrets(w)
+			}
+			if err == nil {
+				out[i] = append([]byte{}, buf.Bytes()...)
+			}
+		}
+	})
+	return out
+}
+
+func runW(in string) *wres {
+	f := strings.Split(in, "|")
+	r := &wres{kek: hx.UH(f[1]), ad: hx.UH(f[2]), tape: hx.UH(f[3]), ops: strings.Split(f[4], ",")}
+	var hs []*keyset.Handle
+	var cs []string
+	r.readable = true
+	for _, b := range f[5:8] {
+		bin := hx.UH(b)
+		ks := &tinkpb.Keyset{}
+		if err := proto.Unmarshal(bin, ks); err != nil {
+			panic("C13 W case with undecodable keyset")
+		}
+		r.ks = append(r.ks, ks)
+		h, err := insecurecleartextkeyset.Read(keyset.NewBinaryReader(bytes.NewReader(bin)))
+		cs = append(cs, okErr(err))
+		if err != nil {
+			r.readable = false
+		}
+		hs = append(hs, h)
+	}
+	r.obs = "W|c:" + strings.Join(cs, ",")
+	if !r.readable {
+		return r
+	}
+	a, err := c14.KekAEAD(r.kek)
+	if err != nil {
+		panic(err)
+	}
+	r.sharedB = history(hs, r.ops, a, r.ad, r.tape, true, false)
+	r.freshB = history(hs, r.ops, a, r.ad, r.tape, false, false)
+	r.sharedJ = history(hs, r.ops, a, r.ad, r.tape, true, true)
+	r.freshJ = history(hs, r.ops, a, r.ad, r.tape, false, true)
+	var outs []string
+	for _, b := range r.sharedB {
+		if b == nil {
+			outs = append(outs, "err")
+		} else {
+			outs = append(outs, "ok:"+hx.H(b))
+		}
+	}
+	r.obs += "|o:" + strings.Join(outs, ";")
+	return r
+}
+
+// checkW: what a write emits through a writer that was used before is
+// byte-identical to what a fresh writer emits for it, and no encrypted or
+// no-secrets output holds key bytes of any handle of the history.
+func checkW(in string) string {
+	r := runW(in)
+	if !r.readable {
+		return ""
+	}
+	var all, secret [][]byte
+	for _, ks := range r.ks {
+		for _, k := range ks.GetKey() {
+			kd := k.GetKeyData()
+			all = append(all, kd.GetValue())
+			if !freeOfSecrets(trueMaterial(kd.GetTypeUrl(), kd.GetKeyMaterialType())) {
+				secret = append(secret, kd.GetValue())
+			}
+		}
+	}
+	for i, o := range r.ops {
+		for _, form := range []struct {
+			name          string
+			shared, fresh []byte
+		}{{"binary", r.sharedB[i], r.freshB[i]}, {"JSON", r.sharedJ[i], r.freshJ[i]}} {
+			if (form.shared == nil) != (form.fresh == nil) {
+				return fmt.Sprintf("writer-history: write %d (%s, %s writer) fails or succeeds depending on what the writer wrote before", i, o, form.name)
+			}
+			if !bytes.Equal(form.shared, form.fresh) {
+				return fmt.Sprintf("writer-history: write %d (%s) through a %s writer used before emits %d bytes, a fresh writer %d: output depends on earlier writes", i, o, form.name, len(form.shared), len(form.fresh))
+			}
+			if form.shared == nil {
+				continue
+			}
+			switch o[0] {
+			case 'E', 'A':
+				if l := leaks(form.shared, all); l != "" {
+					return fmt.Sprintf("writer-history: encrypted write %d (%s, %s) contains %s of the history", i, o, form.name, l)
+				}
+			case 'N':
+				own, _ := proto.Marshal(r.ks[int(o[1]-'1')])
+				if l := leaksExcept(form.shared, secret, own); l != "" {
+					return fmt.Sprintf("writer-history: no-secrets write %d (%s, %s) contains %s of a secret key of the history", i, o, form.name, l)
+				}
+			}
+		}
+		if b := r.sharedB[i]; b != nil && (o[0] == 'E' || o[0] == 'A') {
+			num, typ, n := protowire.ConsumeTag(b)
+			if n < 0 || num != 2 || typ != protowire.BytesType {
+				return "writer-history: binary encrypted keyset does not start with the ciphertext field"
+			}
+			_, m := protowire.ConsumeBytes(b[n:])
+			if m < 0 || n+m != len(b) {
+				return "writer-history: binary encrypted keyset carries more than the ciphertext field"
+			}
+		}
+		if o[0] == 'N' && r.sharedB[i] != nil {
+			// a no-secrets write that succeeds wrote a keyset without secret material
+			ks := &tinkpb.Keyset{}
+			if proto.Unmarshal(r.sharedB[i], ks) != nil {
+				return "writer-history: WriteWithNoSecrets output is not a keyset"
+			}
+			for _, k := range ks.GetKey() {
+				if !freeOfSecrets(k.GetKeyData().GetKeyMaterialType()) {
+					return "writer-history: WriteWithNoSecrets output holds a key that is not public or remote"
+				}
+			}
+		}
+	}
+	return ""
+}
+
+// genKeyset: a valid keyset of nk keys of the transcribed key types; secret =
+// some key is symmetric or private, otherwise public/remote only.
+func genKeyset(r *hx.Rng, ids []uint64, secret bool) *c14.MKeyset {
+	nk := 1 + r.Intn(3)
+	ks := &c14.MKeyset{}
+	sp := r.Intn(nk)
+	for i := 0; i < nk; i++ {
+		st := hx.PickS(r, []uint64{1, 1, 1, 2, 3})
+		var k c14.MKey
+		switch {
+		case secret && i == sp:
+			k = fromBank(secPoolMod[r.Intn(len(secPoolMod))], ids[i], st)
+		case r.Chance(25):
+			k = remoteKey(r, ids[i], st)
+		default:
+			k = fromBank(pubPoolMod[r.Intn(len(pubPoolMod))], ids[i], st)
+		}
+		ks.Keys = append(ks.Keys, k)
+	}
+	p := r.Intn(nk)
+	ks.Keys[p].Status = 1
+	ks.Primary = ks.Keys[p].ID
+	return ks
+}
+
+func genW(r *hx.Rng) string {
+	ids := []uint64{1, 2, 3, 5, 7, 0x7fffffff, 0xffffffff, 65541, 9, 11}
+	perm := append([]uint64(nil), ids...)
+	for i := len(perm) - 1; i > 0; i-- {
+		j := r.Intn(i + 1)
+		perm[i], perm[j] = perm[j], perm[i]
+	}
+	k1 := genKeyset(r, perm[0:3], true)
+	k2 := genKeyset(r, perm[3:6], r.Chance(70))
+	k3 := genKeyset(r, perm[6:9], false)
+	n := 2 + r.Intn(3)
+	var ops []string
+	for i := 0; i < n; i++ {
+		switch {
+		case i == 0 && r.Chance(60):
+			ops = append(ops, "C1") // an earlier cleartext write of the secret handle
+		default:
+			ops = append(ops, hx.PickS(r, []string{"C1", "C2", "E1", "E2", "A2", "A1", "N3", "N3", "N1", "E3", "A3"}))
+		}
+	}
+	kek := r.Bytes(hx.PickS(r, []int{16, 32}))
+	ad := r.Bytes(hx.PickS(r, []int{0, 7, 16, 33}))
+	tape := r.Bytes(48)
+	return fmt.Sprintf("W|%s|%s|%s|%s|%s|%s|%s|history-%d", hx.H(kek), hx.H(ad), hx.H(tape), strings.Join(ops, ","),
+		hx.H(k1.Marshal()), hx.H(k2.Marshal()), hx.H(k3.Marshal()), n)
+}
+
+// ---------------------------------------------------------------------------
 // generator
 // ---------------------------------------------------------------------------
 
-var pubPool, secPool, pubPoolMod, secPoolMod []c14.BankKey
+var pubPool, secPool, pubPoolMod, secPoolMod, privPoolMod []c14.BankKey
 
 func init() {
 	for _, b := range c14.Bank() {
 		m := b.Key.GetKeyData().GetKeyMaterialType()
+		in := inScope(b.Key.GetKeyData().GetTypeUrl())
 		if m == tinkpb.KeyData_ASYMMETRIC_PUBLIC {
 			pubPool = append(pubPool, b)
-			if b.Mod {
+			if in {
 				pubPoolMod = append(pubPoolMod, b)
 			}
 		} else {
 			secPool = append(secPool, b)
-			if b.Mod {
+			if in {
 				secPoolMod = append(secPoolMod, b)
+			}
+			if in && m == tinkpb.KeyData_ASYMMETRIC_PRIVATE {
+				privPoolMod = append(privPoolMod, b)
 			}
 		}
 	}
@@ -573,6 +861,21 @@ func rekey(r *hx.Rng, k *c14.MKey) bool {
 		proto.Unmarshal(k.Value, v)
 		v.KeyValue = r.Bytes(len(v.KeyValue))
 		k.Value = mm(v)
+	case "AesGcmHkdfStreamingKey":
+		v := &gcmhkdfpb.AesGcmHkdfStreamingKey{}
+		proto.Unmarshal(k.Value, v)
+		v.KeyValue = r.Bytes(len(v.KeyValue))
+		k.Value = mm(v)
+	case "AesCtrHmacStreamingKey":
+		v := &ctrhmacstreampb.AesCtrHmacStreamingKey{}
+		proto.Unmarshal(k.Value, v)
+		v.KeyValue = r.Bytes(len(v.KeyValue))
+		k.Value = mm(v)
+	case "JwtHmacKey":
+		v := &jwthmacpb.JwtHmacKey{}
+		proto.Unmarshal(k.Value, v)
+		v.KeyValue = r.Bytes(len(v.KeyValue))
+		k.Value = mm(v)
 	case "KmsAeadKey", "KmsEnvelopeAeadKey":
 		k.Value = r.Bytes(len(k.Value))
 	default:
@@ -596,6 +899,10 @@ func c13Gen(r *hx.Rng, n int, tier string) []string {
 	var lines []string
 	ids := []uint64{1, 2, 3, 5, 7, 0x7fffffff, 0xffffffff, 65541, 9, 11}
 	for len(lines) < n {
+		if r.Chance(12) {
+			lines = append(lines, genW(r))
+			continue
+		}
 		modPct := 85
 		nk := 1 + r.Intn(5)
 		perm := append([]uint64(nil), ids...)
@@ -604,14 +911,18 @@ func c13Gen(r *hx.Rng, n int, tier string) []string {
 			perm[i], perm[j] = perm[j], perm[i]
 		}
 		ks := &c14.MKeyset{}
-		scen := hx.PickS(r, []string{"public", "public", "one-secret", "one-secret", "one-secret", "mislabel", "mislabel", "all-secret", "public-relabel"})
+		scen := hx.PickS(r, []string{"public", "public", "one-secret", "one-secret", "one-secret", "one-private", "one-private", "mislabel", "mislabel", "all-secret", "public-relabel"})
 		secretPos := r.Intn(nk)
 		kinds := make([]string, nk)
 		for i := 0; i < nk; i++ {
 			st := hx.PickS(r, []uint64{1, 1, 1, 2, 3})
 			var k c14.MKey
-			isSecret := scen == "all-secret" || ((scen == "one-secret" || scen == "mislabel") && i == secretPos)
+			isSecret := scen == "all-secret" || ((scen == "one-secret" || scen == "one-private" || scen == "mislabel") && i == secretPos)
 			switch {
+			case isSecret && scen == "one-private":
+				// a private key of any modelled kind (ECDSA, Ed25519, RSA, ECIES, HPKE, JWT, SLH-DSA) at this position
+				k = fromBank(privPoolMod[r.Intn(len(privPoolMod))], perm[i], st)
+				kinds[i] = "V"
 			case isSecret:
 				k = fromBank(pick(r, secPool, secPoolMod, modPct), perm[i], st)
 				kinds[i] = "S"
@@ -630,6 +941,9 @@ func c13Gen(r *hx.Rng, n int, tier string) []string {
 			}
 			if r.Chance(10) && k.Prefix == 1 {
 				k.Prefix = hx.PickS(r, []uint64{2, 4}) // LEGACY / CRUNCHY
+			}
+			if r.Chance(30) && strings.HasSuffix(k.URL, "StreamingKey") {
+				k.Prefix = hx.PickS(r, []uint64{1, 2, 4}) // ignored by the parser, written back as RAW
 			}
 			ks.Keys = append(ks.Keys, k)
 		}
